@@ -443,3 +443,46 @@ def check_extend_cols(facts, rep):
         rep.violation('E8b.F13-extend-cols', inst, 'SpMat::extend_cols: ' + '; '.join(sorted(set(probs))[:2]), where=b.where())
     else:
         rep.ok('E8b.F13-extend-cols', inst, 'no-op only for ncols(b) == 0; otherwise try_from_csc_data(m, n_a + n_b, ..)')
+
+
+def check_stack_vecs(facts, rep):
+    """F15 (C13, "stacking .. gives the entries the definition says"): SpVec::stack_vecs shifts the row indices of each
+    block by the sum of the *dimensions* of the blocks before it - the first component of its accumulator, which grows
+    by dim(v) per block. A shift by the number of entries collected so far agrees with it only while every earlier block
+    is completely filled."""
+    from symex import apply_closure
+    cl = [b for k, b in facts.bodies.items() if k.endswith('SpVec::<R>::stack_vecs::{closure#0}')]
+    if len(cl) != 1:
+        rep.indet('E8b.F15: fold closure of SpVec::stack_vecs not found')
+        return
+    b = cl[0]
+    rep.saw(b)
+    inst = 'SpVec::stack_vecs|block k is shifted by dim(v_0) + .. + dim(v_{k-1})'
+    shifts, grows = set(), set()
+    for p in SymEx(b, havoc_loops=True, max_paths=500).run():
+        if p.end != 'return':
+            continue
+        for e in p.calls():
+            if e.name.split('::')[-1] == 'for_each' and len(e.args) == 2 and strip(e.args[1])[0] == 'closure':
+                for q in apply_closure(e.args[1], [('item',)]) or []:
+                    for w in q.events:
+                        if w.kind == 'write' and w.lv[0] == ('ptr', ('item',)):
+                            t = strip(w.term)
+                            if t[0] == 'field' and t[2] == '0' and t[1][0] == 'bin' and t[1][1] == 'AddWithOverflow':
+                                ops = [strip(t[1][2]), strip(t[1][3])]
+                                other = [x for x in ops if x != ('item',)]
+                                if len(other) == 1:
+                                    shifts.add(sk(other[0]))
+        v = p.mem.get((('local', 2), ('0',)))
+        if v is not None:
+            grows.add(sk(v))
+    if not shifts:
+        rep.indet('E8b.F15: SpVec::stack_vecs: the shift of the row indices was not found')
+    elif shifts == {'arg2.0'} and grows <= {'AddWithOverflow(arg2.0, dim(&arg3)).0'} and grows:
+        rep.ok('E8b.F15-stack-offset', inst, 'rows += res.0; res.0 += v.dim()')
+    elif all(re.match(r'^len\(&?(mut )?arg2\.[12]\)$', x) for x in shifts):
+        rep.violation('E8b.F15-stack-offset', inst,
+                      'SpVec::stack_vecs shifts the rows of a block by %s - the number of entries stored so far - instead of the accumulated dimension: as soon as an earlier block has an unstored zero the entries land in the wrong rows (or collide and the CSC constructor panics)' % sorted(shifts)[0],
+                      where=b.where())
+    else:
+        rep.indet('E8b.F15: SpVec::stack_vecs outside the recognised fragment: shift %s, dimension update %s' % (sorted(shifts), sorted(grows)))
